@@ -49,6 +49,10 @@ struct Case {
     /// the history does not start in an empty directory: a rotated file with this number (and
     /// one record of an earlier era) exists already
     seed_index: Option<u32>,
+    /// the history starts in a directory where a plain rotated file is older than compressed ones
+    /// (an operator has unpacked an old file, or an earlier cleanup was interrupted):
+    /// app_r00001.log, app_r00002.log.gz, app_r00003.log.gz
+    seed_mixed: bool,
 }
 
 fn grid() -> Vec<Case> {
@@ -58,6 +62,7 @@ fn grid() -> Vec<Case> {
             g.push(Case {
                 cfg: Cfg::rot(CritK::Size(LIMIT), naming, clean),
                 seed_index: None,
+                seed_mixed: false,
             });
         }
     }
@@ -71,7 +76,7 @@ fn grid() -> Vec<Case> {
                 suffix: Some("log".into()),
                 use_timestamp: false,
             };
-            g.push(Case { cfg, seed_index: None });
+            g.push(Case { cfg, seed_index: None, seed_mixed: false });
         }
     }
     // discriminant only, no suffix
@@ -83,11 +88,12 @@ fn grid() -> Vec<Case> {
             suffix: None,
             use_timestamp: false,
         };
-        g.push(Case { cfg, seed_index: None });
+        g.push(Case { cfg, seed_index: None, seed_mixed: false });
     }
     g.push(Case {
         cfg: Cfg::norot(),
         seed_index: None,
+        seed_mixed: false,
     });
     // non-initial state: the numbering is about to grow beyond five digits
     for naming in [NamingK::Numbers, NamingK::NumbersDirect] {
@@ -95,6 +101,16 @@ fn grid() -> Vec<Case> {
             g.push(Case {
                 cfg: Cfg::rot(CritK::Size(LIMIT), naming, clean),
                 seed_index: Some(99_998),
+                seed_mixed: false,
+            });
+        }
+    }
+    for naming in [NamingK::Numbers, NamingK::NumbersDirect] {
+        for clean in [CleanK::Gz(6), CleanK::LogGz(2, 4)] {
+            g.push(Case {
+                cfg: Cfg::rot(CritK::Size(LIMIT), naming, clean),
+                seed_index: None,
+                seed_mixed: true,
             });
         }
     }
@@ -201,6 +217,31 @@ fn run_history(c: &Case, word: &[(bool, i64, usize)]) -> Result<Vec<Vec<(String,
     let mut h = Hist::new(&env, c.cfg.clone());
     let mut prev: Snap = Snap::new();
     let mut prev_names: Vec<String> = Vec::new();
+    if c.seed_mixed {
+        use std::io::Write;
+        // (with direct numbering the newest file is the current one, which is never compressed)
+        let mut seed = vec![(1u32, false), (2, true), (3, true)];
+        if c.cfg.naming() == Some(NamingK::NumbersDirect) {
+            seed.push((4, false));
+        }
+        for (i, gz) in seed {
+            let line = format!("seed-{i}\n").into_bytes();
+            let name = format!("app_r{i:05}.log{}", if gz { ".gz" } else { "" });
+            if gz {
+                let f = std::fs::File::create(env.dir.join(&name)).expect("create seed gz");
+                let mut e = flate2::write::GzEncoder::new(f, flate2::Compression::fast());
+                e.write_all(&line).ok();
+                e.finish().ok();
+            } else {
+                std::fs::write(env.dir.join(&name), &line).ok();
+            }
+            env.observe();
+            env.clock.advance_secs(1);
+            h.accepted.push(line.clone());
+            prev.insert(format!("app_r{i:05}.log"), line);
+            prev_names.push(name);
+        }
+    }
     if let Some(idx) = c.seed_index {
         let name = format!("app_r{idx:05}.log");
         let line = b"seed-line\n".to_vec();
@@ -324,7 +365,9 @@ fn cause(c: &Case, word: &[(bool, i64, usize)], run: usize) -> String {
         Some((_, _, CleanK::Gz(_))) => "gz",
         Some((_, _, CleanK::LogGz(..))) => "log+gz",
     };
-    let shape = if c.seed_index.is_some() {
+    let shape = if c.seed_mixed {
+        "/plain-older-than-compressed"
+    } else if c.seed_index.is_some() {
         "/numbers-beyond-five-digits"
     } else if c.cfg.parts.basename.is_none() && c.cfg.parts.discriminant.is_none() {
         "/infix-only-name"
